@@ -395,7 +395,8 @@ theorem flK6_same (k5 : Kcp) (change lost : Nat) (cwnd resent : U32) :
 /-- **`flush` is total under `InvK`**: it never writes outside its buffer, re-establishes the
 invariant, and leaves the ack list empty. -/
 theorem flush_total {k : Kcp} (h : InvK k) (full : Bool) (now : U32) :
-    (flush k full now).panic = false ∧ InvK (flush k full now).k ∧ (flush k full now).k.acklist = [] := by
+    (flush k full now).panic = false ∧ InvK (flush k full now).k ∧ (flush k full now).k.acklist = [] ∧
+    SameCfg k (flush k full now).k := by
   have hd := flD_keep h now
   have hx := flX_keep h full now
   have h6 := flK6_same (flE k full now).k (flX k full now).change (flX k full now).lost (flCwnd (flC k now).k)
@@ -405,7 +406,7 @@ theorem flush_total {k : Kcp} (h : InvK k) (full : Bool) (now : U32) :
   have hE : SameCfg k (flE k full now).k := by
     have := hd.cfg.trans hx.2.1.sameCfg
     exact ⟨this.mtu, this.mss, this.bufLen, this.rcvb, this.rcvq⟩
-  refine ⟨hx.1.nopanic, ?_, ?_⟩
+  refine ⟨hx.1.nopanic, ?_, ?_, hE.trans h6.1⟩
   · apply h.of_sameCfg (hE.trans h6.1)
     · rw [h6.2.1]
       show DataLe _ (flX k full now).f.k.snd_queue
